@@ -163,6 +163,8 @@ def run(tier):
     # at the production (64, 8) and the toy (4, 1) block and length-field sizes
     chk.inductive("HashLen", cinit="CInit64")
     chk.inductive("HashLen", cinit="CInit4")
+    if tier == "thorough":
+        chk.proof("HashLenProof")       # Euclid form of the invariant for EVERY block size (TLAPS, 121 obligations)
     cmds = gen(chk, tier)
     chk.exec_and_validate("T_SM3", cmds, keyfn, cost=cost)
     return chk.finish(
